@@ -30,3 +30,14 @@ package caching
 
 //@ func (*TaintCache).Taint(tc, ctx, targetLabel) (err)
 //@   pure
+
+// C07/C08: the content-addressed store. Write may skip the upload only if the backend already holds the digest.
+//@ func (*Cas).Write(c, ctx, digest, reader) (err)
+//@   requires [memo_sound] forall d string :: {has(casMemo, d)} has(casMemo, d) ==> has(bstored, "cas/" + d)
+//@   ensures [stored_or_error] err == nil ==> has(bstored, "cas/" + digest)
+//@   ensures [memo_sound] forall d string :: {has(casMemo, d)} has(casMemo, d) ==> has(bstored, "cas/" + d)
+
+//@ func (*Cas).Exists(c, ctx, digest) (r, err)
+//@   requires [memo_sound] forall d string :: {has(casMemo, d)} has(casMemo, d) ==> has(bstored, "cas/" + d)
+//@   ensures [true_means_stored] r && err == nil ==> has(bstored, "cas/" + digest)
+//@   ensures [memo_sound] forall d string :: {has(casMemo, d)} has(casMemo, d) ==> has(bstored, "cas/" + d)
